@@ -1,6 +1,6 @@
 (* C06 — optimize terminates, respects purity, and reaches a minimal fixpoint. Property theorems only. *)
 Require Import ZArith NArith Bool List Arith. Import ListNotations.
-Require Import F64 Dec Types Generic Lang Opt IO OptFacts OptFacts2 OptFacts3 OptFacts4 GenStruct OptTab.
+Require Import F64 Dec Types Generic Lang Opt IO OptFacts OptFacts2 OptFacts3 OptFacts4 WalkTypes WalkRead GenOptArms OptTab.
 
 (* termination with the closed-form fuel the extracted run_opt uses: never OutOfFuel, for every tree and environment *)
 Theorem C06_terminates : forall E e acc, fst (fst (optimize_t E (opt_fuel e) e acc)) <> Generic.OOutOfFuel.
